@@ -50,3 +50,12 @@ package reader
 //@   ensures [labelled-with-its-stream] len(out) == old(len(out)) + 1 ==> out[old(len(out))].TaskID == msg.TaskID && out[old(len(out))].CollectionID == msg.CollectionID && out[old(len(out))].CollectionName == msg.CollectionName && out[old(len(out))].PChannelName == msg.PChannelName
 //@   ensures forall i int :: 0 <= i && i < old(len(out)) ==> out[i] == old(out[i])
 //@   panics never
+
+// ---- C06: the error event names the owning task -------------------------------------------------------
+//@ func (*replicateChannelHandler).sendErrEvent
+//@   props C06
+//@   requires r != nil
+//@   ensures [one-error-event-naming-the-task] len(events) == old(len(events)) + 1 && events[old(len(events))].EventType == api.ReplicateError && events[old(len(events))].TaskID == taskID && events[old(len(events))].Error == err
+//@   ensures forall i int :: 0 <= i && i < old(len(events)) ==> events[i] == old(events[i])
+//@   modifies events
+//@   panics never
